@@ -803,3 +803,26 @@ def run_I4(chk, rule="I4", floor=3):
                 chk.bad(rule, (f, fd.node), fd.node, f"{f.short}(): {fd.msg}", fd.facts)
     chk.extra["zip_sites_typed"] = n
     return n
+
+
+def run_I5(chk, prefixes, rule="I5", floor=2):
+    """reversal consistency of parallel sequences (engine E3c `seqrev`)"""
+    from ..core.seqrev import RevOrder
+    prog = chk.prog
+    chk.rule(rule, "parallel sequences (sectors of a leg, sites of a sweep) zipped together are walked in the same direction", floor=floor)
+    n = 0
+    for f in prog.all_funcs():
+        if not f.module.name.startswith(tuple(prefixes)) or "torch" in f.module.name:
+            continue
+        if "zip(" not in A.text(f.node):
+            continue
+        ro = RevOrder(f.node)
+        ro.check()
+        for node, msg, facts in ro.findings:
+            n += 1
+            if msg is None:
+                chk.ok(rule, (f, node), node, facts, sample=n <= 4)
+            else:
+                chk.bad(rule, (f, node), node, f"{f.short}(): {msg}", facts)
+    chk.extra["zip_sites_with_parallel_families"] = n
+    return n
